@@ -437,7 +437,7 @@ func c12Observe(bin bool, p []byte) (obs c12Class) {
 // one connection
 
 var (
-	c12StepWait  = c12EnvDur("C12_STEP_WAIT_MS", 5000)
+	c12StepWait  = c12EnvDur("C12_STEP_WAIT_MS", 1500)
 	c12ShortWait = c12EnvDur("C12_SHORT_WAIT_MS", 200)
 	c12FinalWait = c12EnvDur("C12_FINAL_WAIT_MS", 20000)
 )
@@ -467,6 +467,7 @@ type c12Rec struct {
 	others   int // client frames that are not scripted replies
 	sentinel int
 	gotSent  bool
+	closed   bool // the reader has stopped: nothing more can arrive
 	notes    []string
 	readDone chan struct{}
 }
@@ -483,10 +484,13 @@ func (r *c12Rec) wait(pred func() bool, d time.Duration) bool {
 	defer t.Stop()
 	for {
 		r.mu.Lock()
-		ok := pred()
+		ok, closed := pred(), r.closed
 		r.mu.Unlock()
 		if ok {
 			return true
+		}
+		if closed {
+			return false
 		}
 		select {
 		case <-r.prog:
@@ -621,6 +625,12 @@ func c12Run(c *c12Case) {
 
 	go func() { // the only reader; no per-read deadline
 		defer close(rec.readDone)
+		defer func() {
+			rec.mu.Lock()
+			rec.closed = true
+			rec.mu.Unlock()
+			rec.notify()
+		}()
 		for {
 			typ, p, err := conn.Read(ctx)
 			if err != nil {
@@ -663,8 +673,15 @@ func c12Run(c *c12Case) {
 			}
 			if !rec.wait(func() bool { return rec.handled > h0 || rec.others > o0 }, d) {
 				timedOut = true
-				c12StepTimeouts.Add(1)
-				rec.note("no effect of frame %d seen within %v", i, d)
+				rec.mu.Lock()
+				closed := rec.closed
+				rec.mu.Unlock()
+				if closed {
+					rec.note("connection closed by the relay after frame %d", i)
+				} else {
+					c12StepTimeouts.Add(1)
+					rec.note("no effect of frame %d seen within %v", i, d)
+				}
 			}
 		}
 	}
@@ -677,9 +694,16 @@ func c12Run(c *c12Case) {
 			d = 10 * c12ShortWait
 		}
 		if !rec.wait(func() bool { return rec.gotSent }, d) {
-			rec.note("sentinel not seen within %v", d)
 			timedOut = true
-			c12FinalTimeouts.Add(1)
+			rec.mu.Lock()
+			closed := rec.closed
+			rec.mu.Unlock()
+			if closed {
+				rec.note("connection closed by the relay before the sentinel")
+			} else {
+				rec.note("sentinel not seen within %v", d)
+				c12FinalTimeouts.Add(1)
+			}
 		}
 	}
 	conn.Close(websocket.StatusNormalClosure, "")
